@@ -10,6 +10,13 @@ that were removed from a container and may be re-inserted anywhere.  After EVERY
 rejected one) the adaptor reads, first, `container.identifiers` of every container and, then, the
 identifiers carried by the objects that are in it.
 
+Round 3 additions: the whole life cycle of SHALLOW glyphs (contours read from a GLIF and not looked at yet).  The
+adaptor no longer looks at the contours of a shallow glyph before a call (it used to list them in order to know what
+the call removes: that listing was the first touch, never the call); every operation that affects identifiers is
+exercised as the first touch of a shallow glyph - as its target and as its source -, the model knows which calls
+load the contours and when (`preload`, `penEnd`), the load state is compared after every operation, and every case
+that runs on a shallow glyph is run a second time on a fully loaded twin (`twin_oracle`).
+
 Round 2 additions: calls the container has to refuse (removePoint / remove<Kind> with an object that is not in it,
 the strangers being real Point / Contour / ... objects the history produced: replaced by reverse(), removed, owned by
 a sibling or by another container; anchor / guideline dicts with an identifier and an invalid colour), and re-opened
@@ -30,7 +37,7 @@ from sexp import Atom, opt
 MODEL = "ident"
 SHRINKABLE = True
 RULE = ("op sequences over 3 glyphs (in a font, or stand-alone) + font guidelines + a limbo of removed objects; "
-        "identifiers drawn from a pool of 6 on a random subset of objects (high collision rate); 60 op kinds: "
+        "identifiers drawn from a pool of 6 on a random subset of objects (high collision rate); 62 op kinds: "
         "insert/re-insert/remove/clear of contours, components, anchors, guidelines; point insert/remove; "
         "Contour.clear/reverse/removeSegment/split/setStartPoint; identifier setters and generateIdentifier* with "
         "scripted candidates; insertions during which an observer of the container's *WillBeAdded notification gives "
@@ -44,8 +51,18 @@ RULE = ("op sequences over 3 glyphs (in a font, or stand-alone) + font guideline
         "AND an invalid colour through insert / append / instantiate / the anchors / guidelines setters; "
         "plus every point-type pattern up to length 4 (sampled: 5) x every point-list edit; plus directed families "
         "(stale point after each point-list edit, strangers carrying an identifier in use, first guideline call on an "
-        "unread font, calls on glyphs whose contours are still shallow loaded - lazily loaded contours are observed as "
-        "the records they are instead of being deepened after every operation); plus the "
+        "unread font); plus the life cycle of shallow glyphs (a UFO is opened; a few calls that do not look at contours, "
+        "with identifiers colliding with those the shallow records reserve; then a call that is the FIRST to touch the "
+        "shallow contours: clear, clearContours, setDataFromSerialization over / from it, copyDataFromGlyph from / into "
+        "it, drawPoints from it, drawing into it with and without skipConflictingIdentifiers, appendContour, "
+        "insertContour at an index, re-insertion of a removed contour, removeContour / removePoint with a stranger, "
+        "every call that names a contour by index, decomposeComponent(s) of a component whose base is shallow / into a "
+        "shallow glyph, Layer.reloadGlyphs, Layer.insertGlyph of it in the same layer / through another layer / "
+        "through another font, len(glyph); then calls that ask for the released / reserved identifiers again); "
+        "lazily loaded contours are observed as the records they are, the load state of every glyph is part of the "
+        "comparison, and every case that runs on a shallow glyph is run again on a twin world in which every glyph is "
+        "fully loaded after every operation (same outcome, registries and identifiers in use required); a third of "
+        "the shallow cases a second time with an explicit read access to every glyph after every operation; plus the "
         "corpus of regression/witness histories; non-trivial = at least one successful registry-changing op AND at "
         "least one rejected duplicate or generated identifier; distinct = distinct op lists")
 ASSUMPTIONS = [
@@ -69,7 +86,10 @@ ASSUMPTIONS = [
     "from the first guideline call on; Font.appendGuideline is not used on an unread font (it computes the index "
     "before the lazy read and inserts at 0: an ordering matter, not C10's)",
     "while a glyph's contours are shallow loaded the contours and the identifiers they carry are read off the shallow "
-    "records (Glyph._shallowLoadedContours, a private attribute: every public way to look at contours deepens them)",
+    "records (Glyph._shallowLoadedContours, a private attribute: every public way to look at contours deepens them); "
+    "the loaded-twin comparison uses public API only (len(glyph) to load, glyph.identifiers, the objects' identifiers)",
+    "the Contour objects a call makes and removes while it loads a shallow glyph (clear, clearContours, "
+    "setDataFromSerialization, reloadGlyphs as the first touch) are collected from Glyph.ContourWillBeDeleted",
     "Contour.reverse is exercised on contours fontTools' PointToSegmentPen can draw before and after the reversal "
     "(reverse reads Contour.clockwise twice; on other contours that raises PenError or not depending on the cached "
     "area representation, which is C03's subject); the probe uses fontTools itself",
@@ -311,7 +331,7 @@ def gen_op(rng, standalone, fresh, can_disk):
         return gen_refused(rng)
     # round 3: read accesses, the copy through another font / layer, and more re-opened (shallow) worlds
     if rng.random() < 0.015:
-        return ["load", rng.randrange(NGLYPH)]
+        return ["load", rng.randrange(NGLYPH), rng.randrange(5)]
     if not standalone and rng.random() < 0.008:
         t = rng.randrange(NGLYPH - 1)
         return ["insertGlyphVia", t, rng.randrange(t + 1, NGLYPH), rng.random() < 0.5]
@@ -621,7 +641,7 @@ def _first_touch_op(rng, t, datas, ident):
         lambda: ["insContour", t, 99] + contour(),
         lambda: ["reinsContour", t, rng.randrange(4), rng.randrange(4)],
         lambda: ["rmAbsent", 0, t, rng.randrange(4)],
-        lambda: ["load", t], lambda: ["rmContour", t, rng.randrange(4)], lambda: ["reverse", t, rng.randrange(4)],
+        lambda: ["load", t, rng.randrange(5)], lambda: ["rmContour", t, rng.randrange(4)], lambda: ["reverse", t, rng.randrange(4)],
         lambda: ["genPointId", t, rng.randrange(4), rng.randrange(4), [ident() or 0, 902]],
         lambda: ["insPoint", t, rng.randrange(4), rng.randrange(4), 2, ident()],
         lambda: ["setContourId", t, rng.randrange(4), ident()],
@@ -659,7 +679,7 @@ def gen_shallow_cases(rng, tier):
     stored outline is drawn / inserted once more, anchors take the stored identifiers, the glyph is cleared, loaded,
     round-tripped).  Every case is also run on the fully loaded twin (see `twin_oracle`), and a third of them a second
     time with an explicit `load` of every glyph after every operation (the twin, through the model)."""
-    n = 260 if tier == "quick" else 2600
+    n = 200 if tier == "quick" else 2400
     for _ in range(n):
         while True:
             datas = [gen_unique_data(rng, i) for i in range(NGLYPH)]
@@ -706,7 +726,7 @@ def gen_shallow_cases(rng, tier):
                 elif r < 0.90:
                     ops.append(["reinsContour", rng.randrange(NGLYPH), rng.randrange(4), rng.randrange(4)])
                 else:
-                    ops.append(["load", rng.randrange(NGLYPH)])
+                    ops.append(["load", rng.randrange(NGLYPH), rng.randrange(5)])
         case = dict(ops=ops, standalone=False)
         yield case
         if rng.random() < 0.34:
@@ -1031,6 +1051,12 @@ class World(object):
         Point objects yet.  Read off the private attribute: every public way to look at contours deepens them."""
         return t != FONT and bool(self.glyphs[t]._shallowLoadedContours)
 
+    def ncontours(self, t):
+        """number of contours of glyph `t`, without looking at them while they are shallow"""
+        if self.shallow(t):
+            return len(self.glyphs[t]._shallowLoadedContours)
+        return len(self.glyphs[t])
+
     def children_now(self, t, kind):
         """the children after a call, for the limbo bookkeeping: the contours of a glyph that is (again) shallow
         are new records, none of them is an object that existed before the call - and must not be deepened by
@@ -1259,7 +1285,14 @@ class World(object):
         if k == "insContour":
             g = self.glyphs[op[1]]
             c = self.new_contour(op[3], op[4])
-            g.insertContour(op[2] % (len(g) + 1), c)
+            # (the number of contours is taken without looking at them: the call itself is to be the first touch of
+            # a shallow glyph - `assert contour not in self` for insertContour, `len(self)` for appendContour)
+            n = self.ncontours(op[1])
+            idx = op[2] % (n + 1)
+            if idx == n and op[2] % 2 == 0:
+                g.appendContour(c)
+            else:
+                g.insertContour(idx, c)
             return
         if k in ("reinsContour", "reinsComp", "reinsAnchor", "reinsGuide"):
             kind = ["reinsContour", "reinsComp", "reinsAnchor", "reinsGuide"].index(k)
@@ -1275,7 +1308,7 @@ class World(object):
                     return [Atom("err"), Atom("Cyclic")]    # would make the component graph cyclic
             if op[1] == FONT and self.font_unread():
                 self.unread_first += 1
-            n = self.nchildren(op[1], kind)
+            n = self.ncontours(op[1]) if kind == 0 else self.nchildren(op[1], kind)
             idx = op[2] % (n + 1)
             if kind == 0:
                 c.insertContour(idx, obj)
@@ -1663,8 +1696,30 @@ class World(object):
             self.keep.append(o)
             return
         if k == "load":
-            # a read access to the contours, nothing else
-            len(self.glyphs[op[1]])
+            # a read access to the contours, nothing else: any of the public ways to look at them
+            g = self.glyphs[op[1]]
+            how = op[2] % 5 if len(op) > 2 else 0
+            if how == 0:
+                len(g)
+            elif how == 1:
+                for _contour in g:
+                    pass
+            elif how == 2:
+                try:
+                    g[0]
+                except IndexError:
+                    pass
+            elif how == 3:
+                stranger = D.Contour()
+                self.keep.append(stranger)
+                assert stranger not in g
+            else:
+                stranger = D.Contour()
+                self.keep.append(stranger)
+                try:
+                    g.contourIndex(stranger)
+                except ValueError:
+                    pass
             return
         if k == "insertGlyphVia":
             # the glyph is inserted into a layer of ANOTHER font (or, `op[3]`, into another layer of its own font);
